@@ -116,6 +116,20 @@ CHECKS = {
              'snapshot), and must refuse every collection containing an index outside 0..n-1.',
         note='Trusted: reference model R. Beyond the bound: more than 4 subsets in generated messages (the corpus has up to '
              'hundreds, visited with 9 collections each), collections longer than 3 (4 for one environment).'),
+    'C16': dict(
+        level='model_checking', design='DESIGN.md §4 C16',
+        technique='exhaustive enumeration per message of every id-path that exists in its hierarchical structure (depth '
+                  '<= 6, child and attribute steps) x slice deviations (at most 1, thorough 2, sliced steps from 9 slices) x '
+                  '4 subset selectors + absent ids + bare ids; messages from E1 choice-tree exploration of the template '
+                  'grammar (all replication counts), the C07 bitmap structures and the corpus; every query also against '
+                  'the compiled decode and the other storage form',
+        text='Every query of the bounded space is evaluated by the real querent and compared with the reference evaluation '
+             'of the documented semantics over the nested JSON (envelope per replication, list per repetition, positions '
+             'from the first repetition, document order); bare ids of ordinary elements must return every value with that '
+             'label in the flat data; compressed/uncompressed and compiled/non-compiled decodes must answer identically.',
+        note='Trusted: mc.ref.nested.evaluate, mc.ref.pathlang.apply_slice; the nested JSON itself is C07/C09. Paths on '
+             'which the documented semantics define no value are skipped (counted). Corpus messages use the first 40 '
+             '(400) id-paths with slices on the last step.'),
     'C17': dict(
         level='model_checking', design='DESIGN.md §4 C17',
         technique='exhaustive enumeration of the full product parameter name x section index x whitespace variant x '
